@@ -6,11 +6,11 @@ import hashlib
 from checks import oracles as O
 from checks import oracles_reg as R
 from checks.common import result, stats_from_history
-from checks.history import gen_fanin_history, gen_history
+from checks.history import gen_chain_history, gen_fanin_history, gen_history
 from model import machine, ref
 from model.core import canon, typed_equal
 
-K_CAP = {"quick": 40, "thorough": 120}
+K_CAP = {"quick": 30, "thorough": 120}
 
 
 def generate(prop, seed, tier):
@@ -27,6 +27,8 @@ def generate(prop, seed, tier):
                                          gran="opcode+", salt=desc["sched"]["salt"]))
     if seed % 16 == 7:
         desc = sibling_files_desc(seed, rng)
+    elif seed % 4 == 2:
+        desc, rng = gen_chain_history(seed, rng)
     desc["tier"] = tier
     last = desc["ops"][-1]
     last["cfg"]["max_errors"] = rng.choice([0, 0, 2, None])
@@ -130,8 +132,16 @@ def _execute(prop, desc, hist):
     if only is None:
         rec0 = machine.apply_op(hist, copy.deepcopy(op), idx)
         positions = list(rec0.rt.positions)
-        N = min(len(positions), K_CAP[desc.get("tier", "quick")])
-        todo = [(k, m) for k in range(1, N + 1) for m in ("exc", "death")]
+        # every call start, store read and store write position (before / after its effect), every file operation;
+        # of the modified-time queries - nothing has been written yet when the stale check is cut, all of them lead
+        # to the same follow-up - only the first, the middle and the last one; capped (evenly spread) per case
+        mt = [k for k in range(1, len(positions) + 1) if positions[k - 1][0] == "mtime"]
+        keep_mt = {mt[0], mt[len(mt) // 2], mt[-1]} if mt else set()
+        ks = [k for k in range(1, len(positions) + 1) if positions[k - 1][0] != "mtime" or k in keep_mt]
+        cap = K_CAP[desc.get("tier", "quick")]
+        if len(ks) > cap:
+            ks = sorted({ks[(i * (len(ks) - 1)) // (cap - 1)] for i in range(cap)})
+        todo = [(k, m) for k in ks for m in ("exc", "death")]
         viol.extend(O.o_term(rec0, world, hist))
     else:
         todo = [tuple(only)]
